@@ -26,7 +26,7 @@ ASSUMPTIONS = [
     "azimuth values are written with Python's float repr; azimuths below 1e-4 (scientific notation) are not generated",
     "meta content is compared as a diagnostic only (the statement lists frequencies, curves, masks, search range, peaks, statistics and the derived columns)",
 ]
-NOT_REACHED = ["azimuths printed in scientific notation", "results with a single accepted window (std curve undefined)"]
+NOT_REACHED = ["find_peaks_kwargs other than height / prominence", "azimuths printed in scientific notation", "results with a single accepted window (std curve undefined)"]
 BUDGET = {"quick": dict(cases=500, seconds=60, shards=4),
           "thorough": dict(cases=30000, seconds=600, shards=16)}
 REQUIRED = ["mon:curves-bit-identical", "mon:masks-identical", "mon:search-range-and-peaks-identical",
@@ -230,6 +230,40 @@ def fam_traditional(ctx, rng):
     fam_object(ctx, rng, "traditional")
 
 
+def fam_find_peaks_kwargs(ctx, rng):
+    """Traditional results whose peaks were found with explicit find_peaks_kwargs (height / prominence), including the
+    workflow 'take range and kwargs from result.meta, change them, re-apply', then written and read back."""
+    obj, _ = histories.build_traditional(rng)
+    f = obj.frequency
+    steps = []
+    sr = histories.rand_range(rng, f)
+    kw = [{"height": [0.0, float(rng.uniform(3, 10))]}, {"prominence": float(rng.uniform(0.05, 0.5))},
+          {"height": float(rng.uniform(1.0, 2.0))}][int(rng.integers(0, 3))]
+    obj.update_peaks_bounded(search_range_in_hz=sr, find_peaks_kwargs=dict(kw))
+    steps.append(["range+kwargs", list(sr), kw])
+    wrote = False
+    if writable(obj) and obj.valid_peak_boolean_mask.sum() >= 2:
+        wrote = round_trip(ctx, obj, "traditional", steps, rng)
+    # re-apply with settings taken from the result's own meta and edited (as a user adjusting a previous run would)
+    for _ in range(int(rng.integers(1, 3))):
+        m_kw = obj.meta["find_peaks_kwargs"]
+        m_sr = obj.meta["search_range_in_hz"]
+        if isinstance(m_kw, dict):
+            if "height" in m_kw and isinstance(m_kw["height"], list):
+                m_kw["height"][1] = float(rng.uniform(2, 6))
+            elif "prominence" in m_kw:
+                m_kw["prominence"] = float(rng.uniform(0.05, 1.0))
+            else:
+                m_kw["height"] = float(rng.uniform(1.0, 3.0))
+        obj.update_peaks_bounded(search_range_in_hz=m_sr, find_peaks_kwargs=m_kw)
+        steps.append(["re-apply-from-meta", list(m_sr), dict(m_kw) if isinstance(m_kw, dict) else m_kw])
+        if writable(obj) and obj.valid_peak_boolean_mask.sum() >= 2:
+            wrote = round_trip(ctx, obj, "traditional", steps, rng) or wrote
+    ctx.describe(kind="traditional+find_peaks_kwargs", n_curves=[int(obj.n_curves)], steps=steps)
+    if wrote:
+        ctx.nontrivial(["kwargs", int(obj.n_curves), [str(s2) for s2 in steps]])
+
+
 def fam_azimuthal(ctx, rng):
     fam_object(ctx, rng, "azimuthal")
 
@@ -238,5 +272,5 @@ def fam_diffuse(ctx, rng):
     fam_object(ctx, rng, "diffuse")
 
 
-FAMILIES = [("traditional", fam_traditional), ("azimuthal", fam_azimuthal), ("diffuse-field", fam_diffuse),
+FAMILIES = [("explicit-find-peaks-kwargs", fam_find_peaks_kwargs), ("traditional", fam_traditional), ("azimuthal", fam_azimuthal), ("diffuse-field", fam_diffuse),
             ("azimuthal-2", fam_azimuthal)]
